@@ -183,3 +183,21 @@ func (l *Layout) Rebuild(x []byte, i int, v, r, s []byte) []byte {
 	items = append(items, EncStr(sd))
 	return EncList(items...)
 }
+
+// RebuildMembers assembles a multisig transaction whose member signatures are those of x in the given order (a subset is allowed).
+func (l *Layout) RebuildMembers(x []byte, order []int) []byte {
+	raw := func(it Item) []byte { return x[it.Hdr:it.End] }
+	var items [][]byte
+	for _, f := range l.Fields[:9] {
+		items = append(items, raw(f))
+	}
+	inner, _ := ParseItem(x, l.Fields[9].Start, l.Fields[9].End)
+	ch, _ := Children(x, inner)
+	var members [][]byte
+	for _, j := range order {
+		t := l.Sigs[j]
+		members = append(members, EncList(raw(t[0]), raw(t[1]), raw(t[2])))
+	}
+	items = append(items, EncStr(EncList(raw(ch[0]), EncList(members...))))
+	return EncList(items...)
+}
